@@ -22,6 +22,7 @@ import (
 	"unicode/utf8"
 
 	"github.com/open2b/scriggo/ast"
+	"github.com/open2b/scriggo/ast/astutil"
 	"github.com/open2b/scriggo/internal/runtime"
 	"github.com/open2b/scriggo/native"
 )
@@ -284,10 +285,54 @@ func emitTemplate(tree *ast.Tree, typeInfos map[ast.Node]*typeInfo, indirectVars
 	e.fb = newBuilder(newMacro("main", "main", typ, tree.Format, tree.Path, tree.Pos()), tree.Path)
 	e.fb.changePath(tree.Path)
 	e.fb.enterScope()
+	if hasNestedImport(tree.Nodes) {
+		// A file could be imported for the first time by code that is not
+		// always executed, or that is executed more than once: the imported
+		// files are initialized by a function called before any other code.
+		fn := newFunction("main", "$initimports", typ, tree.Path, tree.Pos())
+		e.templateInits = newBuilder(fn, tree.Path)
+		e.fb.emitCallFunc(e.fb.addFunction(fn), e.fb.currentStackShift(), nil)
+	}
 	e.emitNodes(tree.Nodes)
 	e.fb.exitScope()
 	e.fb.end()
+	if e.templateInits != nil {
+		e.templateInits.end()
+	}
 	return &Code{Main: e.fb.fn, TypeOf: e.types.TypeOf, Globals: e.varStore.getGlobals()}, nil
+}
+
+// hasNestedImport reports whether nodes, the nodes of an expanded template
+// tree, contain an import statement of a template file that is not directly
+// in nodes, as the import statements of the rendered files.
+func hasNestedImport(nodes []ast.Node) bool {
+	found := false
+	var inspect func(n ast.Node) bool
+	inspect = func(n ast.Node) bool {
+		switch n := n.(type) {
+		case *ast.Import:
+			if n.Tree != nil {
+				found = true
+			}
+		case *ast.Render:
+			if n.Tree != nil {
+				for _, node := range n.Tree.Nodes {
+					astutil.Inspect(node, inspect)
+				}
+			}
+		}
+		return !found
+	}
+	for _, node := range nodes {
+		if _, ok := node.(*ast.Import); ok {
+			continue
+		}
+		astutil.Inspect(node, inspect)
+		if found {
+			return true
+		}
+	}
+	return false
 }
 
 // isExported reports whether name is exported, according to
